@@ -396,6 +396,10 @@ func (in *Interp) callWrite(w Value, bs []*Term) (n *Term, err IfaceV) {
 }
 
 func (in *Interp) fmtOperand(v Value, verb byte, sharp bool) ([]*Term, bool) {
+	return in.fmtOperandM(v, verb, sharp, true)
+}
+
+func (in *Interp) fmtOperandM(v Value, verb byte, sharp bool, methods bool) ([]*Term, bool) {
 	iv, ok := v.(IfaceV)
 	if !ok {
 		return nil, false
@@ -414,7 +418,7 @@ func (in *Interp) fmtOperand(v Value, verb byte, sharp bool) ([]*Term, bool) {
 	}
 	// error / Stringer take precedence for %v %s
 	if verb == 'v' || verb == 's' || verb == 'q' {
-		if !sharp {
+		if !sharp && methods {
 			for _, mname := range []string{"Error", "String"} {
 				if m := in.lookupMethod(iv.t, nil, mname); m != nil && m.Signature.Params().Len() == 0 && m.Signature.Results().Len() == 1 {
 					if b, ok := m.Signature.Results().At(0).Type().Underlying().(*types.Basic); ok && b.Kind() == types.String {
@@ -478,6 +482,20 @@ func (in *Interp) fmtOperand(v Value, verb byte, sharp bool) ([]*Term, bool) {
 				return in.runeToString(iv.v.(*Term), u).(StrV).b, true
 			}
 		}
+	case *types.Pointer:
+		if verb == 'v' && !sharp {
+			p := iv.v.(PtrV)
+			if p.isNil() {
+				return in.mkStr("<nil>").b, true
+			}
+			if _, isStruct := u.Elem().Underlying().(*types.Struct); isStruct {
+				fb, ok := in.fmtOperand(IfaceV{t: u.Elem(), v: p.load()}, 'v', false)
+				if !ok {
+					return nil, false
+				}
+				return append(in.mkStr("&").b, fb...), true
+			}
+		}
 	case *types.Struct:
 		if verb == 'v' && !sharp {
 			out := in.mkStr("{").b
@@ -486,7 +504,7 @@ func (in *Interp) fmtOperand(v Value, verb byte, sharp bool) ([]*Term, bool) {
 				if i > 0 {
 					out = append(out, in.tt.b8[' '])
 				}
-				fb, ok := in.fmtOperand(IfaceV{t: u.Field(i).Type(), v: sv.f[i]}, 'v', false)
+				fb, ok := in.fmtOperandM(IfaceV{t: u.Field(i).Type(), v: sv.f[i]}, 'v', false, u.Field(i).Exported())
 				if !ok {
 					return nil, false
 				}
@@ -1167,3 +1185,4 @@ func pathKey(p []int) string {
 	}
 	return sb.String()
 }
+
